@@ -60,7 +60,8 @@ pub fn hexl(v: &[String]) -> String {
     if v.is_empty() {
         "-".into()
     } else {
-        v.iter().map(|s| hex(s)).collect::<Vec<_>>().join(",")
+        // an empty string inside a list is written `e` (decodes to no bytes on both sides)
+        v.iter().map(|s| if s.is_empty() { "e".to_string() } else { hex(s) }).collect::<Vec<_>>().join(",")
     }
 }
 pub fn fnv(s: &str) -> u64 {
@@ -298,6 +299,16 @@ impl Args {
     }
 }
 
+/// a panic payload that is not a string (`std::panic::panic_any`)
+#[derive(Debug, Clone, PartialEq)]
+pub struct HPanic {
+    pub tag: usize,
+    pub round: usize,
+}
+
 pub fn panic_message(p: &Box<dyn std::any::Any + Send>) -> String {
+    if let Some(h) = p.downcast_ref::<HPanic>() {
+        return format!("harness panic (typed) {} #{}", h.tag, h.round);
+    }
     p.downcast_ref::<String>().cloned().or_else(|| p.downcast_ref::<&str>().map(|s| s.to_string())).unwrap_or_else(|| "<non-string payload>".into())
 }
